@@ -65,12 +65,6 @@ theorem solver_rerun_fixed {n : Nat} {c : Fin n → Fin n → ℤ} {s t : Fin n}
     rw [if_neg hguard, hloop]
   · exact ⟨hq.fi, hq.nr, hq.src, hq.tgt, rfl⟩
 
-def Solver.runN (pop : List Nat → Option (Nat × List Nat)) (fuel : Nat) : Nat → Solver → Option Solver
-  | 0, sv => some sv
-  | k + 1, sv => match sv.run pop fuel with
-    | none => none
-    | some sv' => Solver.runN pop fuel k sv'
-
 theorem solver_rerunN_fixed {n : Nat} {c : Fin n → Fin n → ℤ} {s t : Fin n} (hN : n ≤ INV)
     (pop : List Nat → Option (Nat × List Nat)) (hp : PopOK pop) (hl : PopLen pop) (fuel k : Nat) :
     ∀ (sv : Solver), QuietS c s t sv →
